@@ -66,7 +66,7 @@ fn check_htyp_in(
             // storage time: the seconds of the message's own time stamp field, no microseconds
             b.extend_from_slice(b"DLT\x01\x0d\x0c\x0b\x0a\0\0\0\0STO\0");
         } else {
-            b.extend_from_slice(b"DLT\x01\x01\x02\x03\x04\x05\x06\x07\x08STO\0");
+            b.extend_from_slice(if fidx % 4 == 2 { b"DLT\x01\x01\x02\x03\x04\x05\x06\x07\x08\0\0\0\0" } else { b"DLT\x01\x01\x02\x03\x04\x05\x06\x07\x08STO\0" });
         }
     }
     let start = b.len();
@@ -185,6 +185,30 @@ fn check_htyp_in(
             hb,
             sb.get(16)
         ));
+    }
+    // built again from its decoded parts (`MessageConfig` + `Message::new`, with the storage header it was parsed with)
+    {
+        use dlt_core::dlt::{ExtendedHeaderConfig, Message, MessageConfig};
+        let rebuilt = guard(|| {
+            Message::new(
+                MessageConfig {
+                    version: m.header.version,
+                    counter: m.header.message_counter,
+                    endianness: m.header.endianness,
+                    ecu_id: m.header.ecu_id.clone(),
+                    session_id: m.header.session_id,
+                    timestamp: m.header.timestamp,
+                    payload: m.payload.clone(),
+                    extended_header_info: m.extended_header.as_ref().map(|x| ExtendedHeaderConfig { message_type: x.message_type.clone(), app_id: x.application_id.clone(), context_id: x.context_id.clone() }),
+                },
+                m.storage_header.clone(),
+            )
+        })
+        .map_err(|p| Violation::from_panic("Message::new from the decoded parts", &p))?;
+        let (hb, rb) = guard(|| (rebuilt.header.header_type_byte(), rebuilt.as_bytes())).map_err(|p| Violation::from_panic("as_bytes of the rebuilt message", &p))?;
+        if hb != h || rb.get(start) != Some(&h) {
+            return Err(viol!("htyp:rebuilt", "{}: the message built again from the decoded parts carries header type {:#04x} (byte on the wire {:?})", ctx, hb, rb.get(start)));
+        }
     }
     let bytes = guard(|| m.as_bytes()).map_err(|p| Violation::from_panic("as_bytes", &p))?;
     if bytes.get(start) != Some(&h) {
